@@ -29,3 +29,11 @@ Theorem C10_time_partial : forall c s, apc s = AIdle -> amode s = MRun -> 0 < b_
   exists s', step c s LTickFlush = Some s' /\ apc s' = AEnq (mk_freq (buf s)) /\ buf s' = buf_empty.
 Proof. exact tick_enabled. Qed.
 Print Assumptions C10_time_partial.
+
+(* C10_no_wait_on_flush: none of the statements above mentions a Force request or Stop - they hold in
+   histories without either.  Non-vacuity: a run with MaxBufferedRows = 2, no Flush, no Stop, in which the
+   second batch triggers the flush and both batches end up answered nil and visible. *)
+Example C10_no_wait_on_flush :
+  exists s, reachable cfg_small s /\ stop_returned s = None /\ stopped s = false /\
+            ack s 0%nat = Some RNil /\ ack s 1%nat = Some RNil /\ visible s = [0%nat; 1%nat] /\ pipeline s = [].
+Proof. exact limit_run. Qed.
